@@ -81,7 +81,7 @@ def run_compiled(ctx, n):
         ws_text = choicelib.weight_vector(rng)
         groups = [(gen.lit_str("g%d" % i, quote='"'), w) for i, w in enumerate(ws_text)]
         salt = gen.lit_str(rng.choice(["", "s", "exp-1"]), quote='"') if rng.random() < 0.6 else None
-        prog = gen.Program("e", salt, ["uid"], ("ret", groups), {"uid": "any"})
+        prog = gen.Program("e", salt, rng.choice([["uid"], ["uid"], ["uid", "uid"], ["uid", "uid", "uid"]]), ("ret", groups), {"uid": "any"})
         text = gen.render(prog)
         envs = [{"uid": rng.choice([rng.randrange(10 ** 9), "user_%d" % rng.randrange(10 ** 6)])} for _ in range(4)]
         envs.append({"uid": ""})          # with no salt the key is the empty string: still a key
@@ -145,6 +145,8 @@ def run(ctx):
     run_compiled(ctx, max(20, n // 4))
     run_compiled_at_positions(ctx, max(30, n // 3))
     choicelib.run_half_step(ctx, max(40, n // 4))
+    choicelib.run_scaling(ctx, 25 if ctx.tier == 'quick' else 400)
+    choicelib.run_rounded_totals(ctx)
     subnormal_probe(ctx)
 
 
